@@ -125,18 +125,19 @@ package goat
 
 //@ func goat.(*handler).processUnaryRpc
 //@   nopanic[C12.nopanic]
-//@   atcall[C20.end_reports_final_error] internal.StatsEndRPC : arg3 == appErr && !arg1
+//@   atcall[C20.end_reports_final_error] internal.StatsEndRPC : arg3 == appErr && !arg1 && (arg3 == nil) == (returning.Status == nil)
 //@   requires rpc != nil && rpc.Header != nil && info != nil && md != nil && md.Handler != nil && clientCtx != nil
 //@   ensures[C01.response_envelope C06.unary_response C16.return_route C05.response_id] result != nil && result.Id == rpc.Id && result.Header != nil
 //@     | && result.Header.Source == rpc.Header.Destination && result.Header.Destination == rpc.Header.Source && result.Trailer != nil && result.Reset_ == nil
 //@   ensures[C01.handler_once C20.handler_once C12.handler_once] bound("appErr") ==> ncalls("fnfield:H.google.golang.org/grpc.MethodDesc.Handler") == old(ncalls("fnfield:H.google.golang.org/grpc.MethodDesc.Handler")) + 1
 //@   ensures[C12.no_handler_for_bad_metadata] !bound("appErr") ==> ncalls("fnfield:H.google.golang.org/grpc.MethodDesc.Handler") == old(ncalls("fnfield:H.google.golang.org/grpc.MethodDesc.Handler")) && result.Status != nil && result.Status.Code != 0 && result.Body == nil
-//@   ensures[C03.success_has_no_status C06.unary_response] bound("appErr") && appErr == nil ==> result.Status == nil
+//@   ensures[C03.success_has_no_status C06.unary_response C20.end_error_nil_iff_no_status] bound("appErr") && appErr == nil ==> result.Status == nil
 //@   ensures[C03.error_status] bound("appErr") && appErr != nil ==> result.Status != nil && (isStatus(appErr) && stCode(appErr) != 0 ==> result.Status.Code == stCode(appErr) && result.Status.Message == stMsg(appErr) && result.Status.Details == stDetails(appErr))
 //@   ensures[C03.plain_error_text] bound("appErr") && appErr != nil && !isStatus(appErr) ==> result.Status.Code != 0 && result.Status.Message == errText(appErr)
-//@   ensures[C03.error_never_ok] bound("appErr") && appErr != nil ==> result.Status != nil && result.Status.Code != 0
+//@   ensures[C03.reply_is_a_status_or_a_body C06.reply_is_a_status_or_a_body C20.reply_is_a_status_or_a_body] bound("appErr") && result.Status == nil ==> result.Body != nil
+//@   ensures[C03.error_never_ok C20.end_error_nil_iff_no_status] bound("appErr") && appErr != nil ==> result.Status != nil && result.Status.Code != 0
 //@   atcall[C10.unary_handler_ctx_descends C07.unary_handler_ctx_descends] fnfield:H.google.golang.org/grpc.MethodDesc.Handler : desc(arg1, clientCtx)
-//@   ensures[C01.reply_body C05.reply_body] bound("resp") && resp != nil && bound("err") && err == nil ==> result.Body != nil && result.Body.Data == protoBytes(resp)
+//@   ensures[C01.reply_body C05.reply_body C15.reply_bytes_are_a_private_copy] bound("resp") && resp != nil && bound("err") && err == nil ==> result.Body != nil && result.Body.Data == protoBytes(resp)
 
 //@ objinv[C10.objinv C12.objinv] goat.Server : self.ctx != nil && self.cancel != nil && self.services != nil && (forall j Int :: 0 <= j && j < len(self.statsHandlers) ==> self.statsHandlers[j] != nil)
 //@ objinv[C10.objinv C12.objinv] goat.Server : forall s String :: s in self.services ==> self.services[s] != nil
@@ -158,8 +159,8 @@ package goat
 //@   ensures[C01.handler_once C20.handler_once C12.handler_once] ncalls("fnfield:H.google.golang.org/grpc.StreamDesc.Handler") + ncalls("fnfield:H.goat.Server.streamInterceptor")
 //@     | == old(ncalls("fnfield:H.google.golang.org/grpc.StreamDesc.Handler") + ncalls("fnfield:H.goat.Server.streamInterceptor")) + 1
 //@   ensures[C07.stream_ctx_cancelled_at_exit C10.stream_ctx_cancelled_at_exit] done(cancels(handler.cancel))
-//@   atcall[C03.trailer_carries_handler_result C06.trailer_carries_handler_result] server.(*serverStream).SendTrailer : arg1 == appErr
-//@   atcall[C11.stream_signals_before_it_waits_for_the_registry_lock C14.stream_signals_before_it_waits_for_the_registry_lock C10.stream_signals_before_it_waits_for_the_registry_lock C02.stream_signals_before_it_waits_for_the_registry_lock C05.stream_signals_before_it_waits_for_the_registry_lock] goat.(*handler).unregisterStream : done(cancels(handler.cancel))
+//@   atcall[C03.trailer_carries_handler_result C06.trailer_carries_handler_result C20.end_error_is_the_status_sent] server.(*serverStream).SendTrailer : arg1 == appErr
+//@   atcall[C12.stream_signals_before_it_waits_for_the_registry_lock C11.stream_signals_before_it_waits_for_the_registry_lock C14.stream_signals_before_it_waits_for_the_registry_lock C10.stream_signals_before_it_waits_for_the_registry_lock C02.stream_signals_before_it_waits_for_the_registry_lock C05.stream_signals_before_it_waits_for_the_registry_lock] goat.(*handler).unregisterStream : done(cancels(handler.cancel))
 
 // reader closure of a server stream: only this stream's queue, or the stream context's error
 //@ func goat.(*handler).runStream$1
@@ -256,6 +257,7 @@ package goat
 //@   nopanic[C17.nopanic C16.nopanic]
 //@   ctxaware[C17.no_goroutine_parked_after_cancel] ctx
 //@   requires ctx != nil && c.conn != nil
+//@   ensures[C17.read_failure_reported_unless_cancelled C16.read_failure_reported_unless_cancelled] ncalls("send") == iterstart(0, ncalls("send")) + 1 || done(ctx)
 //@   atcall[C16.offer_each_envelope_once C17.offer_under_own_name] send : arg1.id == c.id && (arg1.rpc != nil ==> arg1.rpc == rpc && arg1.err == nil) && (arg1.rpc == nil ==> arg1.err != nil && arg1.client == c)
 
 //@ func goat.(*proxyClient).writeLoop
@@ -263,6 +265,16 @@ package goat
 //@   ctxaware[C17.no_goroutine_parked_after_cancel] ctx
 //@   requires ctx != nil && c.conn != nil
 //@   atcall[C16.write_unchanged] (types.RpcReadWriter).Write : arg2 == rpc && arg1 == ctx
+//@   ensures[C17.write_failure_reported_unless_cancelled C16.write_failure_reported_unless_cancelled] ncalls("send") == iterstart(0, ncalls("send")) + 1 || done(ctx)
+
+// failure report to the serve loop: this connection, under its own name, with the error; given up only
+// when the proxy is cancelled
+//@ func goat.(*proxyClient).report
+//@   nopanic[C17.nopanic]
+//@   ctxaware[C17.no_goroutine_parked_after_cancel] ctx
+//@   requires ctx != nil && err != nil
+//@   atcall[C17.report_under_own_name C16.report_under_own_name] send : arg1.id == c.id && arg1.rpc == nil && arg1.err == err && arg1.client == c
+//@   ensures[C17.reported_unless_cancelled C16.reported_unless_cancelled] ncalls("send") == old(ncalls("send")) + 1 || done(ctx)
 
 // the connection's two loops run under a group context derived from the proxy's
 //@ func goat.(*proxyClient).readWrite
@@ -311,8 +323,8 @@ package goat
 //@   nopanic[C18.nopanic]
 //@   ctxaware[C18.stop_ends_the_hand_off] gsd.ctx
 //@   escape[C18.cancelled_key_does_not_stall_the_run_loop] conn.done
-//@   loop 0 invariant[C18.each_envelope_handed_over_once_in_order] bound("conn") ==> ncalls("send") == iterstart(0, ncalls("send")) + 1 || closed(conn.done)
-//@   loop 0 invariant[C18.each_envelope_handed_over_once_in_order] ncalls("send") <= iterstart(0, ncalls("send")) + 1
+//@   loop 0 invariant[C18.each_envelope_handed_over_once_in_order C01.demux_hands_over_each_request_once] bound("conn") ==> ncalls("send") == iterstart(0, ncalls("send")) + 1 || closed(conn.done)
+//@   loop 0 invariant[C18.each_envelope_handed_over_once_in_order C01.demux_hands_over_each_request_once] ncalls("send") <= iterstart(0, ncalls("send")) + 1
 //@   loop 0 invariant[C18.each_envelope_handed_over_once_in_order] ncalls("go:goat.(*Demux).Run$1") == loopentry(0, ncalls("go:goat.(*Demux).Run$1"))
 //@   atcall[C18.handed_to_keys_connection] send : arg1 == rpc && bound("conn") && arg0 == conn.r && id == lastret("fnfield:H.goat.Demux.demuxOn")
 //@     | && aftercall("sync.Mutex).Unlock", id in gsd.conns.value && gsd.conns.value[id] == conn)
@@ -452,7 +464,7 @@ package goat
 
 //@ func goat.(*ClientConn).invoke
 //@   nopanic[C13.nopanic]
-//@   atcall[C20.end_reports_final_error] internal.StatsEndRPC : arg3 == err && arg1
+//@   atcall[C20.end_reports_final_error] internal.StatsEndRPC : arg3 == returning && arg1
 //@   requires ctx != nil && len(opts) == 0
 //@   atcall[C01.request_carries_args C06.unary_request_header C04.request_metadata C08.request_timeout] client.(*RpcMultiplexer).CallUnaryMethod :
 //@     | arg2 != nil && arg2.Method == method && arg2.Source == cc.sourceAddress && arg2.Destination == cc.destAddress && arg2.Headers == headers
